@@ -488,6 +488,7 @@ class Engine:
         self.builtins = {}
         self.reach = {}         # fn -> list of pcs of normal exits (for vacuity probes)
         self.assumed = set()    # trusted contracts used at call sites
+        self.builtin_writes = {'print': ['$out']}   # ghost variables a builtin updates (for loop write sets)
         self.stdout_events = []
         from . import builtins as B
         B.install(self)
@@ -1035,6 +1036,9 @@ class Engine:
                     note(n.func.value)
                 if isinstance(n.func, ast.Attribute) and ast.unparse(n.func) in ('heapq.heappush', 'heapq.heappop') and n.args:
                     note(n.args[0])
+                for g in self.builtin_writes.get(ast.unparse(n.func), ()):
+                    if st is None or g in st.env:
+                        res.add((g,))
                 con = receiver_contract(n)
                 if con is not None:
                     pnames = [p for p in con.params if p != 'self' and not p.startswith('$')]
